@@ -21,7 +21,7 @@ func Step(site uint32) {
 			h.Count++
 			h.Last = t.Steps
 		}
-		if t.Steps == t.NextPreempt {
+		if t.NextPreempt != 0 && t.Steps >= t.NextPreempt && NoPreempt == 0 {
 			yieldAt(site)
 		}
 	}
